@@ -43,7 +43,7 @@ def check(run: Run):
     R = 2 if q else 6
     cfgs = []
     for pol in ["lru", "lfu", "slru", "tinylfu"]:
-        for cap in ([1, 2, 3, 5, 6, 8, 10, 20, 99, 100, 101] if q else [1, 2, 3, 4, 5, 6, 7, 8, 10, 12, 20, 50, 99, 100, 101, 200, 300]):
+        for cap in ([1, 2, 3, 5, 6, 8, 10, 20, 99, 100, 101] if q else [1, 2, 3, 4, 5, 6, 7, 8, 10, 12, 20, 50, 99, 100, 101, 200]):
             for exp in ([0, 3] if cap in (2, 100) or not q else [0]):
                 for sync in (True, False):
                     cfgs.append({"cap": cap, "policy": pol, "expiry": exp, "sync": sync,
@@ -56,7 +56,7 @@ def check(run: Run):
     import shutil
     shutil.copy(os.path.join(run.work, "trace.ndjson"), os.path.join(run.work, "trace_all.ndjson"))
     rej = validate_traces(run, "CacheTrace.tla", consts, ["SizeBound", "Structure", "SlruShape", "ClosedEmpty"],
-                          os.path.join(run.work, "trace.ndjson"), "contract")
+                          os.path.join(run.work, "trace.ndjson"), "contract", chunk_runs=None if q else 60)
     for x in rej:
         rs = x["reset"]
         run.findings.append({"kind": "trace-rejected policy=%s cap=%d sync=%s op=%s" % (rs["policy"], rs["cap"], rs["sync"], x["event"]["op"]),
@@ -74,7 +74,7 @@ def check(run: Run):
         f.writelines(l for l in lines if json.loads(l)["run"] in keep)
     consts["TlfuAs"] = '"tlfu"'
     tv, ev = run.traces_validated, run.events_validated
-    rej2 = validate_traces(run, "CacheTrace.tla", consts, ["SizeBound", "Structure", "TlfuShape"], os.path.join(run.work, "trace.ndjson"), "tlfu-detail", max_reject=1)
+    rej2 = validate_traces(run, "CacheTrace.tla", consts, ["SizeBound", "Structure", "TlfuShape"], os.path.join(run.work, "trace.ndjson"), "tlfu-detail", max_reject=1, chunk_runs=None if q else 60)
     run.traces_validated, run.events_validated = tv, ev
     if rej2:
         print("MODEL-DRIFT property=C15 detailed TinyLFU model (window+SLRU) rejects a recorded tinylfu run: %s" % json.dumps(rej2[0]["event"]))
